@@ -38,6 +38,12 @@ M = [
  ("M025", ["C18"], TK + "fake_trx.py", "\t\t\tnum = int(request[1])\n\t\t\tif num < 0:\n\t\t\t\tlog.error(\"(%s) FAKE_DROP amount shall not \"\n\t\t\t\t\t\"be negative\" % self)\n\t\t\t\treturn -1\n\n\t\t\tself.burst_drop_amount = num\n\t\t\tself.burst_drop_period = 1", "\t\t\tnum = int(request[1])\n\t\t\tself.burst_drop_amount = num\n\t\t\tself.burst_drop_period = 1\n\t\t\tif num < 0:\n\t\t\t\treturn -1", "negative amount rejected after the state was changed"),
  ("M026", ["C18"], TK + "fake_trx.py", "if self.burst_drop_amount == 0:", "if self.burst_drop_amount <= 1:", "last requested burst is not dropped"),
  ("M027", ["C18"], TK + "burst_fwd.py", "\t\tif src_trx.rf_muted:\n", "\t\tif False:\n", "sender-side RF mute ignored"),
+ ("M030", ["C19"], "src/target/firmware/layer1/sync.c", "ADD_MODULO(time->t1, 1, 2048);", "ADD_MODULO(time->t1, 1, 2047);", "T1 wraps one superframe early (only visible at the end of the hyperframe)"),
+ ("M031", ["C19"], "src/target/firmware/layer1/sync.c", "\t\t\tif (time->t2 == 0)\n\t\t\t\tADD_MODULO(time->t1", "\t\t\tif (time->t2 == 1)\n\t\t\t\tADD_MODULO(time->t1", "T1 incremented at the wrong frame"),
+ ("M032", ["C19"], "src/shared/libosmocore/src/gsm/gsm_utils.c", "return (51 * ((time->t3 - time->t2 + 26) % 26) + time->t3 + (26 * 51 * time->t1));", "return (51 * ((time->t3 - time->t2) % 26) + time->t3 + (26 * 51 * time->t1));", "recomposition wrong when T3 < T2"),
+ ("M033", ["C19"], TK + "gsm_shared.py", "\t\ttc = (fn // 51) % 8\n", "\t\ttc = (fn // 52) % 8\n", "Python TC differs from C"),
+ ("M034", ["C19", "C07"], TK + "gsm_shared.py", "\t\tt1 = fn // (26 * 51)\n", "\t\tt1 = fn // (26 * 51) % 1024\n", "Python T1 wraps at 1024"),
+ ("M035", ["C19"], "src/target/firmware/layer1/sync.c", "\tif (delta_fn == 1) {", "\tif (delta_fn <= 2) {", "delta 2 treated as delta 1"),
 ]
 
 
